@@ -65,12 +65,21 @@ def dump_with_faults(case, d, kill_at):
             tick('unlink')
             return os.unlink(p)
 
+        def remove(self, p):
+            tick('unlink')
+            return os.remove(p)
+
         def makedirs(self, *a, **k):
             tick('mkdir')
             return os.makedirs(*a, **k)
 
     class ShMod:
-        def copy(self, src, dst):
+        """shutil with every file-copying entry point chunked and instrumented (a kill can leave any chunk prefix);
+        everything else (copymode, copystat, ...) is the real shutil"""
+        def __getattr__(self, n):
+            return getattr(shutil, n)
+
+        def copyfile(self, src, dst, **kw):
             tick('out_open')
             with builtins.open(src, 'rb') as s_, builtins.open(dst, 'wb') as d_:
                 while True:
@@ -81,6 +90,20 @@ def dump_with_faults(case, d, kill_at):
                     d_.write(b)
                     d_.flush()
                 tick('out_close')
+            return dst
+
+        def copy(self, src, dst, **kw):
+            if os.path.isdir(dst):
+                dst = os.path.join(dst, os.path.basename(src))
+            self.copyfile(src, dst)
+            shutil.copymode(src, dst)
+            return dst
+
+        def copy2(self, src, dst, **kw):
+            if os.path.isdir(dst):
+                dst = os.path.join(dst, os.path.basename(src))
+            self.copyfile(src, dst)
+            shutil.copystat(src, dst)
             return dst
     FD.tempfile = TempMod()
     FD.os = OSMod()
